@@ -26,6 +26,9 @@ CLAIMED["C06"] = ("model_checking",
     "legal scripted transport; limits in {none,0,1,2} combinations; 2 peers in TLC, 3 in random runs",
     "DESIGN.md 4/C06")
 
+# harness binaries each claimed property needs (setup builds exactly these)
+BINS = {"C17": ["store"], "C05": ["connmgr"], "C06": ["connmgr"]}
+
 NOT_YET = "check not built yet (work in progress, see DESIGN.md build order)"
 NA = {}
 
@@ -49,7 +52,7 @@ for p in props:
 hooks_commits = os.popen("git -C /repo log --format=%%H --grep='^verif hooks' 2>/dev/null").read().split()
 m = {
     "version": 1,
-    "setup_cmd": "cd /verif/harness && CARGO_NET_OFFLINE=true cargo build --offline --bins",
+    "setup_cmd": "cd /verif/harness && CARGO_NET_OFFLINE=true cargo build --offline " + " ".join("--bin " + b for b in sorted({b for p in CLAIMED for b in BINS.get(p, [])})),
     "hooks": {
         "guard": "litep2p_verif",
         "enable": "rustflags --cfg litep2p_verif in /verif/harness/.cargo/config.toml (the harness crate has a path dependency on /repo)",
